@@ -3,9 +3,9 @@
 import sys, json
 from collections import defaultdict
 
-GROUPS = ["res", "bank", "oblig", "bind", "index", "ctx", "queue", "req", "vol", "cb", "slash", "query"]
+GROUPS = ["res", "bank", "oblig", "bind", "index", "ctx", "queue", "req", "vol", "cb", "slash", "query", "gen"]
 # groups that exist only on the steps where they are written (not carried forward)
-STEP_ONLY = {"query"}
+STEP_ONLY = {"query", "gen"}
 
 def parse(path):
     """yield (hist_id, name, header_lines, ops{step:line}, res{step:res}, groups{step:{group:[lines]}}, viol[(step,prop,detail)])"""
